@@ -35,6 +35,64 @@ def install():
     jstubs.INSTALLED.append('np -> numpy shim in %d jesse.indicators modules' % n_np)
     jstubs.INSTALLED.append('%d numba dispatchers -> their python source (py_func)' % n_nb)
     jstubs.setattr_mod('jesse.helpers', 'CACHED_CONFIG', sys.modules['jesse.helpers'].CACHED_CONFIG)
+    install_scipy_filters()
+
+
+def _reflect_index(j, n):
+    # scipy.ndimage 'reflect' boundary: (d c b a | a b c d | d c b a)
+    period = 2 * n
+    j = j % period
+    return j if j < n else period - 1 - j
+
+
+def _filter1d(kind):
+    import scipy.ndimage as ndi
+    real = getattr(ndi, kind + 'imum_filter1d')
+
+    def f(a, size, axis=-1, output=None, mode='reflect', cval=0.0, origin=0):
+        arr = np.asarray(a)
+        if arr.dtype != object:
+            return real(a, size, axis=axis, output=output, mode=mode, cval=cval, origin=origin)
+        if arr.ndim != 1 or mode != 'reflect' or output is not None:
+            raise NotImplementedError('%simum_filter1d on proxies: only 1-D input with reflect boundary' % kind)
+        n = len(arr)
+        lo = -(size // 2) - origin  # first offset of the window relative to the output position
+        out = np.empty(n, dtype=object)
+        for i in range(n):
+            acc = None
+            for k in range(size):
+                v = arr[_reflect_index(i + lo + k, n)]
+                if acc is None:
+                    acc = v
+                else:
+                    acc = (sx.smax(acc, v) if kind == 'max' else sx.smin(acc, v)) if (sx.is_sym(acc) or sx.is_sym(v)) else (max(acc, v) if kind == 'max' else min(acc, v))
+            out[i] = acc
+        from ..engine.npshim import ObjArr
+        return out.view(ObjArr)
+
+    # self-check of the window placement against scipy on floats (every size/origin the shim may be asked for)
+    rnd = np.random.RandomState(7)
+    for size in (1, 2, 3, 4, 5, 6, 7):
+        for origin in range(-(size // 2), (size - 1) // 2 + 1):
+            x = rnd.rand(9)
+            want = real(x, size, origin=origin)
+            got = f(x.astype(object), size, origin=origin)
+            if not all(float(g) == float(w) for g, w in zip(got, want)):
+                raise AssertionError('filter shim disagrees with scipy for size %d origin %d' % (size, origin))
+    return f
+
+
+def install_scipy_filters():
+    from ..engine import jstubs
+    for modname in ('jesse.indicators.chande', 'jesse.indicators.minmax'):
+        m = sys.modules.get(modname)
+        if m is None:
+            continue
+        for kind in ('max', 'min'):
+            nm = kind + 'imum_filter1d'
+            if hasattr(m, nm):
+                setattr(m, nm, _filter1d(kind))
+    jstubs.INSTALLED.append('scipy.ndimage maximum/minimum_filter1d on object arrays (window placement self-checked against scipy on floats)')
 
 
 def indicator_names():
@@ -56,9 +114,11 @@ def lowered_params(name, variant=0):
             ints.append((pn, p.default))
     kw = {}
     if ints:
-        lo = min(d for _, d in ints)
+        # distinct defaults get distinct small values in the same order (2, 3, 4; equal defaults share a value): a fast and a slow
+        # period that collapse to the same number would make difference-type indicators (macd, ppo, apo, ...) identically zero
+        ranks = sorted(set(d for _, d in ints))
         for pn, d in ints:
-            kw[pn] = (2 if d == lo else 3) + variant
+            kw[pn] = 2 + min(ranks.index(d), 2) + variant
     # deviation / multiplier parameters get pairwise different values (a swapped or reused argument must be visible)
     k = 0
     for pn, p in sig.parameters.items():
